@@ -13,11 +13,14 @@ InitT == /\ tid \in 1..Len(Batch.traces) /\ l = 1
          /\ ht = Batch.traces[tid].ht /\ bld = Batch.traces[tid].bld
          /\ inst = [i \in Inst |-> Unbuilt] /\ snap = [i \in Inst |-> NoSnap]
          /\ sync = [i \in Inst |-> 0] /\ fed = [i \in Inst |-> FALSE] /\ bp = [i \in Inst |-> Defaults]
+         /\ car = [i \in Inst |-> 0] /\ bk = [i \in Inst |-> NoP]
          /\ hist = <<Ev("trace", 0, 0, 0, bld)>> /\ out = NoOut
 
 Call(e) == CASE e.op = "update" -> Update(e.p)
              [] e.op = "reset" -> Reset(e.p)
-             [] e.op = "build" -> Build(e.i, e.p)
+             \* e.j = the functor object the recorder executed this instance with from here on (0 = direct API / a new one);
+             \* BuildOn is enabled only for a carrier holding exactly this builder
+             [] e.op = "build" -> BuildOn(e.i, e.p, IF e.j = 0 THEN Len(hist) + 1 ELSE e.j)
              [] e.op = "train" -> Train(e.i, e.d)
              [] e.op = "getstate" -> GetState(e.i)
              [] e.op = "setstate" -> SetState(e.i, e.j)
